@@ -64,3 +64,38 @@ def _c18_array(n, mb, d, trailing):
         unb_np = np.asarray(unb).reshape(ushape[0], -1) if ushape[0] > 0 else np.zeros((0, 1))
         return {"pshape": pshape, "first": [int(x) for x in first], "second": [int(x) for x in second],
                 "ushape": ushape, "unb": [[int(v) for v in row] for row in unb_np.tolist()]}
+
+
+# ----------------------------------------------------------------------------- C19
+@handler("c19_spaces")
+def c19_spaces(job):
+    """create_range_space on (mins, maxs) boxes; index_fn on every vector of the box enlarged by `margin`."""
+    _quiet()
+    import itertools
+    import jax
+    import jax.numpy as jnp
+    import numpy as np
+    from mdpax.utils.spaces import create_range_space
+    out = []
+    for mins, maxs in job["cases"]:
+        try:
+            space, index_fn = create_range_space(jnp.array(mins), jnp.array(maxs))
+            margin = job.get("margin", 2)
+            probes = list(itertools.product(*[range(lo - margin, hi + margin + 1) for lo, hi in zip(mins, maxs)]))
+            if len(probes) > job.get("max_probes", 4096):
+                import random
+                rnd = random.Random(len(probes))
+                inside = list(itertools.product(*[range(lo, hi + 1) for lo, hi in zip(mins, maxs)]))
+                probes = inside + rnd.sample(probes, job.get("max_probes", 4096) // 4)
+            n = len(probes)
+            size = 1
+            while size < n:
+                size *= 2
+            padded = probes + [probes[0]] * (size - n)
+            idx = jax.vmap(index_fn)(jnp.array(padded, dtype=jnp.int32))
+            idx = [int(x) for x in np.asarray(idx)[:n]]
+            out.append({"space": np.asarray(space).astype(int).tolist(), "shape": list(space.shape), "dtype": str(space.dtype),
+                        "probes": [list(p) for p in probes], "idx": idx})
+        except Exception as e:  # noqa: BLE001
+            out.append({"error": type(e).__name__, "message": str(e)[:500]})
+    return out
